@@ -43,11 +43,22 @@ Definition upload_model (bs : bytes) : list bytes :=
   | Some v => if upload_done_bytes bs then [[1]; uv_written v; []] else [[0]; []; uv_written v]
   end.
 
+(* op 5 = the client side of a folder upload into a fresh target: args stream, chunk script, item count, then for each
+   item what must be found on disk (len16 path ++ [is-folder] ++ data); obs [complete?; the same, read back] *)
+Definition len16 (b : bytes) : bytes := be16 (len b) ++ b.
+Definition render_fitem (i : fitem) : bytes := len16 (fi_path i) ++ [if fi_isdir i then 1 else 0] ++ fi_data i.
+Definition folder_model (bs cnt : bytes) : list bytes :=
+  match folder_upload_bytes (N.to_nat (dbe cnt)) bs with
+  | Some items => [1] :: map render_fitem items
+  | None => [[0]]
+  end.
+
 Definition model1 (o : dop) : list bytes :=
   let '(code, args) := o in
   if (code =? 1) || (code =? 2) then control_model (a 0 args)
   else if code =? 3 then scanner_model (a 0 args)
   else if code =? 4 then upload_model (a 0 args ++ a 2 args ++ a 3 args)
+  else if code =? 5 then folder_model (a 0 args) (a 2 args)
   else [].
 Definition model (ops : list dop) : list (list bytes) := map model1 ops.
 
@@ -77,6 +88,9 @@ Definition oracle1 (o : dop) (obs : list bytes) : bool :=
   else if code =? 4 then
     (* argument 2 is the data the client sent; a complete stream must publish exactly it *)
     list_eqb bytes_match [[1]; a 2 args; []] obs
+  else if code =? 5 then
+    (* arguments 3.. are what the client sent, item by item; a complete stream must leave exactly that on disk *)
+    list_eqb bytes_match ([1] :: skipn 3 args) obs
   else true.
 Definition oracle (ops : list dop) (obs : list (list bytes)) : bool :=
   forallb (fun p => oracle1 (fst p) (snd p)) (combine ops obs).
